@@ -289,7 +289,7 @@ class Network(BaseModel):  # pylint: disable=too-many-public-methods
                     num_multi_con = n_dsts // n_srcs
                     # Duplicate srcs
                     srcs = [src for src in srcs for _ in range(num_multi_con)]
-                case (_, _, False):
+                case _:
                     raise ValueError(
                         "srcs and dsts must have the same length \
                         or `allow_multi` must be `True` and lengths \
